@@ -194,3 +194,47 @@ example : (closeHalfList (closeHalfList
     ⟨.host 0, 1⟩ ⟨.host 1, 80⟩).1.length = 0 := by decide
 
 end TV.C12
+
+namespace TV.C12
+open TV TV.World
+
+/-! ### refusals: the SYN object is dropped ⇒ its one-shot cell becomes `dropped` ⇒ `ConnectionRefused` -/
+
+theorem dropSyn_dropped (w : World) (id : Nat) (hid : id < w.syns.length)
+    (hp : (w.syns.getD id default).st = .pending) : ((w.dropSyn id).syns.getD id default).st = .dropped := by
+  unfold dropSyn
+  simp only
+  rw [setAt_getD _ _ _ _ hid, hp]
+  rfl
+
+/-- **Partitioned direction / held link aside**: a message sent on an explicitly (or randomly)
+    partitioned direction is handed back as discarded by the link — for a SYN that is the drop of its
+    one-shot sender, i.e. an immediate `ConnectionRefused`. -/
+theorem partitioned_send_dropped {M : Type} (l : Link M) (d src dst : Nat) (m : M)
+    (h : l.stateFor src dst = .explicit ∨ l.stateFor src dst = .rand) :
+    ∃ x, (l.enqueueRaw d src dst m).2 = some x ∧ x.msg = m ∧ (l.enqueueRaw d src dst m).1.sent = l.sent := by
+  unfold Link.enqueueRaw
+  rcases h with h | h <;> rw [h] <;> exact ⟨_, rfl, rfl, rfl⟩
+
+/-- **Unowned address / no route**: `send_message` without a link fails and drops the SYN. -/
+theorem unroutable_send_refused (w : World) (e : Env) (h : w.ipnumOf e.dst.ip = none) :
+    (w.sendMessage e).1 = false := by
+  unfold sendMessage
+  cases w.ipnumOf e.src.ip <;> simp [h]
+
+/-- **The connector's view**: once the cell is `dropped` the connect fails with ConnectionRefused,
+    and with the repaired code its half-open table entry is gone. -/
+theorem connect_refused_of_dropped (w : World) (h s id : Nat) (loc rem : Addr) (chan fcW : Nat)
+    (ho : w.getObj h s = some (.connecting id loc rem chan fcW))
+    (hd : (w.syns.getD id default).st = .dropped) : (w.connectPoll h s).2 = "err refused" := by
+  unfold connectPoll
+  simp only [ho, hd]
+
+/-- while the cell is `pending` the connect stays pending (nobody refused it, nobody accepted it). -/
+theorem connect_pending_of_pending (w : World) (h s id : Nat) (loc rem : Addr) (chan fcW : Nat)
+    (ho : w.getObj h s = some (.connecting id loc rem chan fcW))
+    (hd : (w.syns.getD id default).st = .pending) : (w.connectPoll h s).2 = "pending" := by
+  unfold connectPoll
+  simp only [ho, hd]
+
+end TV.C12
